@@ -363,6 +363,102 @@ def expand_getter(f, t, depth=0):
     return _subst(cb.local_term(0), mapping)
 
 
+def lookup_edges(body, blocks, field):
+    """(found target, not-found target) of a search over the collection `field` inside `blocks`: either the Some / None
+    edges of a switch on `position(..)` / `find(..)`, or -- for a loop `for x in field.iter() { if x == key { .. } }`, which is
+    what those adaptors read as -- the true edge of the equality test on the element and the exhaustion edge of next()"""
+    from ..core import chain as _chain
+    for bb in sorted(blocks):
+        if bb in body.switches and bb in body.reachable:
+            si = body.switch_info(bb)
+            for alt in phi_alts(si["subject"]):
+                if is_call(alt, "position", "iter::Iterator::position", "iter::Iterator::find") and field in show(alt):
+                    return si["edges"].get("Some"), si["edges"].get("None")
+    nxt = [c for c in body.calls.values() if c.bb in blocks and c.bb in body.reachable and c.is_("core::iter::Iterator::next")
+           and any(x[0] == "field" and x[2] == field for x in walk(body.operand_term(c.args[0])))]
+    for nx in nxt:
+        sw = None
+        for bb in body.switches:
+            si = body.switch_info(bb)
+            if si["enum"] == "core::option::Option" and any(a[0] == "call" and a[1] == nx.bb for a in phi_alts(peel(si["subject"]))):
+                sw = si
+        if sw is None or sw["edges"].get("Some") is None:
+            continue
+        for bb in sorted(body.switches):
+            if bb not in body.reachable or not body.must_pass([0], [bb], via_edges=[(sw["bb"], sw["edges"]["Some"])])[0]:
+                continue
+            si = body.switch_info(bb)
+            s_ = peel(si["subject"])
+            iseq = (s_[0] == "bin" and s_[1] == "Eq") or is_call(s_, "PartialEq::eq", "eq")
+            if iseq and any(x[0] == "call" and x[1] == nx.bb for x in walk(s_)) and si["edges"].get(True) is not None:
+                return si["edges"][True], sw["edges"].get("None")
+    return None, None
+
+
+def membership_loop(body, field, hit_pred):
+    """`body` is a boolean search over the collection `field` (a loop, which is also what `.iter().any(..)` reads as):
+    it returns true only on a path where hit_pred(path) holds for an element of this iteration, and false only when the
+    iteration is exhausted.  hit_pred(body, next_call, path) -> bool."""
+    from .. import paths as _paths
+    nxt = [c for c in body.calls.values() if c.bb in body.reachable and c.is_("core::iter::Iterator::next")
+           and any(x[0] == "field" and x[2] == field for x in walk(body.operand_term(c.args[0])))]
+    if len(nxt) != 1:
+        return False
+    nx = nxt[0]
+    sw = None
+    for bb in body.switches:
+        si = body.switch_info(bb)
+        if si["enum"] == "core::option::Option" and any(a[0] == "call" and a[1] == nx.bb for a in phi_alts(peel(si["subject"]))):
+            sw = si
+    if sw is None or sw["edges"].get("None") is None:
+        return False
+    trues = falses = 0
+    for lf in _paths.explore(body, 0, lambda t: False, lambda b, x: False, max_paths=4000):
+        if lf["kind"] == "limit":
+            return False
+        if lf["kind"] != "return":
+            continue
+        v = _paths.value_on_path(body, lf["path"], 0)
+        p_ = lf["path"]
+        exhausted = any(p_[i] == sw["bb"] and p_[i + 1] == sw["edges"]["None"] for i in range(len(p_) - 1))
+        if v is None or v[0] != "const" or v[2] not in (0, 1):
+            return False
+        if v[2] == 1:
+            trues += 1
+            if exhausted or not hit_pred(body, nx, p_):
+                return False
+        else:
+            falses += 1
+            if not exhausted:
+                return False
+    return trues >= 1 and falses >= 1
+
+
+def eq_test_taken(elem_field, key):
+    """hit predicate: the path takes the true edge of `element.<elem_field> == <key term>`"""
+    def pred(body, nx, path):
+        for i in range(len(path) - 1):
+            bb = path[i]
+            if bb not in body.switches:
+                continue
+            si = body.switch_info(bb)
+            s_ = peel(si["subject"])
+            sides = None
+            if s_[0] == "bin" and s_[1] == "Eq":
+                sides = (peel(s_[2]), peel(s_[3]))
+            elif is_call(s_, "PartialEq::eq", "eq") and len(s_[3]) == 2:
+                sides = (peel(s_[3][0]), peel(s_[3][1]))
+            if sides is None or si["edges"].get(True) != path[i + 1]:
+                continue
+            from ..core import chain as _chain
+            for a, b in (sides, sides[::-1]):
+                ra, na = _chain(a)
+                if isinstance(ra, tuple) and ra[0] == "call" and ra[1] == nx.bb and na[-1:] == [elem_field] and peel(b) == key:
+                    return True
+        return False
+    return pred
+
+
 OK_KEEPING = ("Result::<T, E>::map_err", "Result::<T, E>::inspect", "Result::<T, E>::inspect_err")
 
 
